@@ -208,3 +208,60 @@ impl<Ctx: crate::runtime::OptCtx> Lowered<'_, Ctx> {
         self.0.codegen()
     }
 }
+
+/// An event inside the implementation of [`List`](crate::List).
+///
+/// The callback installed with [`set_list_hook`] runs on the thread that
+/// performs the list operation and may block it; that is how a harness
+/// controls the interleaving of several threads.
+pub enum ListEvent<'a> {
+    /// The thread is about to acquire the mutex of the list at address
+    /// `list`. `is_free` tells whether the mutex is free right now.
+    BeforeLock {
+        list: usize,
+        is_free: &'a dyn Fn() -> bool,
+    },
+    /// A pointer to an element left the critical section that looked it up
+    /// and is about to be used without the lock (`size` = 0 if unknown).
+    PointerEscaped { addr: usize, size: usize },
+    /// The use of an escaped element pointer is over.
+    PointerDone { addr: usize },
+    /// The buffer `addr .. addr + bytes` is about to be freed or moved.
+    BufferReleased { addr: usize, bytes: usize },
+}
+
+/// Callback type for [`set_list_hook`].
+pub type ListHook = fn(&ListEvent<'_>);
+
+static LIST_HOOK: RwLock<Option<ListHook>> = RwLock::new(None);
+
+/// Install (or remove) the callback for [`ListEvent`]s.
+pub fn set_list_hook(hook: Option<ListHook>) {
+    *LIST_HOOK.write().unwrap_or_else(|e| e.into_inner()) = hook;
+}
+
+fn list_event(ev: ListEvent<'_>) {
+    let hook = *LIST_HOOK.read().unwrap_or_else(|e| e.into_inner());
+    if let Some(hook) = hook {
+        hook(&ev);
+    }
+}
+
+pub(crate) fn before_list_lock<T>(mutex: &std::sync::Mutex<T>) {
+    list_event(ListEvent::BeforeLock {
+        list: mutex as *const _ as usize,
+        is_free: &|| mutex.try_lock().is_ok(),
+    });
+}
+
+pub(crate) fn list_ptr_escaped(addr: usize, size: usize) {
+    list_event(ListEvent::PointerEscaped { addr, size });
+}
+
+pub(crate) fn list_ptr_done(addr: usize) {
+    list_event(ListEvent::PointerDone { addr });
+}
+
+pub(crate) fn list_buffer_released(addr: usize, bytes: usize) {
+    list_event(ListEvent::BufferReleased { addr, bytes });
+}
